@@ -197,3 +197,296 @@ Qed.
 Lemma chain_sum_nonneg clen lo l : chain clen lo l -> 0 <= sum_len l.
 Proof. revert lo; induction l as [|c r IH]; intros lo H; cbn [sum_len]; [lia|]. destruct H as (_ & H2 & _ & H4). specialize (IH _ H4). lia. Qed.
 
+(* ================= packRange on a buffer that starts at the next wanted byte ================= *)
+Definition ready_after (e : renv) (obj : bytes) (c : rspec2) (r : list rspec2) (d : Z) (s' : riter) (out : bytes) : Prop :=
+  (s' = mkIt [] 0 (it_out s') false /\ out = remaining e obj c r d) \/
+  (exists co' cl' r' d',
+      s' = mkIt ((co', cl') :: r') d' (co' + cl' - d') false /\
+      0 <= co' /\ 0 < cl' /\ co' + cl' <= zlen obj /\ chain (zlen obj) (co' + cl') r' /\ 0 < d' <= cl' /\
+      out ++ remaining e obj (co', cl') r' d' = remaining e obj c r d /\
+      d' + sum_len r' < d + sum_len r).
+
+Lemma rflag_f r d o : rflag (mkIt r d o false) false = mkIt r d o false.
+Proof. reflexivity. Qed.
+Lemma set_out_mk r d o b x : set_out (mkIt r d o b) x = mkIt r d x b.
+Proof. reflexivity. Qed.
+
+Ltac simp_it := cbn [it_rest it_out it_debt it_bad orb negb andb current_spec at_end]; rewrite ?rflag_f, ?set_out_mk; cbn [it_rest it_out it_debt it_bad].
+
+Lemma pack_range_ready e obj : e_multipart e = true ->
+  forall r co cl d k fuel,
+    0 <= co -> 0 < cl -> co + cl <= zlen obj -> chain (zlen obj) (co + cl) r ->
+    0 < d <= cl -> 1 <= k -> co + cl - d + k <= zlen obj -> (length r < fuel)%nat ->
+    exists s' out,
+      pack_range fuel e (mkIt ((co, cl) :: r) d (co + cl - d) false) (co + cl - d) (rr_slice obj (co + cl - d) k) = (s', out) /\
+      ready_after e obj (co, cl) r d s' out.
+Proof.
+  intros Hmp. induction r as [|[no nl] r' IH]; intros co cl d k fuel Hco Hcl Hend Hch Hd Hk Hfit Hfuel.
+  - (* last spec *)
+    destruct fuel as [|f]; [cbn [length] in Hfuel; lia|].
+    set (o := co + cl - d) in *.
+    assert (Hz : zlen (rr_slice obj o k) = k) by (apply zlen_slice; lia).
+    cbn [pack_range]. cbn [at_end it_rest orb]. rewrite Hz. destruct (k =? 0) eqn:Ek; [lia|].
+    rewrite lts_busy by lia. destruct (o <? co) eqn:Eo; [lia|].
+    destruct (0 <? Z.min d k) eqn:Ec; [|lia].
+    cbn [current_spec it_rest it_out it_debt it_bad]. rewrite Hmp.
+    destruct (o <? co + cl) eqn:E1; [|lia]. destruct (o + k >? co) eqn:E2; [|lia].
+    simp_it. rewrite note_sent_ok by lia.
+    destruct (Z.le_gt_cases d k) as [Hdk|Hkd].
+    + (* the spec is completed by this buffer *)
+      replace (Z.min d k) with d by lia. replace (d - d) with 0 by lia.
+      rewrite cpm_last. cbn [negb it_debt Z.eqb].
+      eexists _, _. split; [reflexivity|]. left. split; [reflexivity|].
+      unfold remaining, hdr_if, term_mp. cbn [fst snd parts_body app]. rewrite Hmp. cbn [andb].
+      rewrite take_slice by lia. fold o. now rewrite <- !app_assoc.
+    + replace (Z.min d k) with k by lia.
+      rewrite cpm_busy by (try discriminate; lia). cbn [negb].
+      rewrite gnro_busy by lia.
+      simp_it.
+      replace (co + cl - (d - k)) with (o + k) by (unfold o; lia).
+      destruct (o + k <? o + k) eqn:E3; [lia|]. simp_it.
+      rewrite drop_slice by lia. replace (k - k) with 0 by lia. rewrite slice_zero.
+      cbn [zlen lenN Z.of_N]. replace (o + k - (o + k)) with 0 by lia. cbn [Z.leb Z.compare].
+      eexists _, _. split; [reflexivity|]. right. exists co, cl, [], (d - k).
+      split; [f_equal; unfold o; lia|]. repeat split; try lia; try exact I; try (cbn [sum_len snd length]; lia).
+      * unfold remaining, hdr_if. cbn [fst snd]. rewrite Hmp. cbn [andb].
+        destruct (d - k =? cl) eqn:E4; [lia|]. cbn [app].
+        rewrite take_slice by lia. rewrite <- !app_assoc. f_equal. rewrite app_assoc. f_equal.
+        fold o. replace (co + cl - (d - k)) with (o + k) by (unfold o; lia).
+        rewrite <- slice_split by lia. f_equal. lia.
+  - (* another spec follows *)
+    destruct fuel as [|f]; [cbn [length] in Hfuel; lia|].
+    cbn [chain fst snd] in Hch. destruct Hch as (Hno & Hnl & Hnend & Hch').
+    set (o := co + cl - d) in *.
+    assert (Hz : zlen (rr_slice obj o k) = k) by (apply zlen_slice; lia).
+    cbn [pack_range]. cbn [at_end it_rest orb]. rewrite Hz. destruct (k =? 0) eqn:Ek; [lia|].
+    rewrite lts_busy by lia. destruct (o <? co) eqn:Eo; [lia|].
+    destruct (0 <? Z.min d k) eqn:Ec; [|lia].
+    cbn [current_spec it_rest it_out it_debt it_bad]. rewrite Hmp.
+    destruct (o <? co + cl) eqn:E1; [|lia]. destruct (o + k >? co) eqn:E2; [|lia].
+    simp_it. rewrite note_sent_ok by lia.
+    destruct (Z.le_gt_cases d k) as [Hdk|Hkd].
+    + replace (Z.min d k) with d by lia. replace (d - d) with 0 by lia.
+      rewrite cpm_next by (cbn [snd]; lia). cbn [negb snd].
+      rewrite gnro_busy by lia. replace (no + nl - nl) with no by lia.
+      simp_it.
+      replace (o + d) with (co + cl) by (unfold o; lia).
+      destruct (no <? co + cl) eqn:E3; [lia|]. simp_it.
+      rewrite drop_slice by lia. replace (o + d) with (co + cl) by (unfold o; lia).
+      rewrite zlen_slice by lia.
+      destruct (k - d <=? no - (co + cl)) eqn:E4.
+      * eexists _, _. split; [reflexivity|]. right. exists no, nl, r', nl.
+        split; [f_equal; lia|]. repeat split; try lia; try assumption; try (cbn [sum_len snd length]; lia).
+        -- rewrite remaining_start. unfold remaining, expected_body. cbn [fst snd]. fold o.
+           rewrite take_slice by lia. unfold hdr_if. cbn [snd]. rewrite Hmp. cbn [andb]. now rewrite <- !app_assoc.
+      * destruct (d =? 0) eqn:E5; [lia|].
+        rewrite drop_slice by lia.
+        replace (co + cl + (no - (co + cl))) with no by lia.
+        specialize (IH no nl nl (k - d - (no - (co + cl))) f).
+        replace (no + nl - nl) with no in IH by lia.
+        destruct IH as (s' & out' & Hrun & Hafter); try lia; try assumption.
+        { cbn [length] in Hfuel. apply Nat.succ_lt_mono. exact Hfuel. }
+        rewrite Hrun. eexists _, _. split; [reflexivity|].
+        assert (Hrem : (hdr_if e (co, cl) d ++ rr_take d (rr_slice obj o k)) ++ remaining e obj (no, nl) r' nl
+                       = remaining e obj (co, cl) ((no, nl) :: r') d).
+        { rewrite remaining_start. unfold remaining, expected_body. cbn [fst snd]. fold o.
+          rewrite take_slice by lia. now rewrite <- !app_assoc. }
+        unfold hdr_if in Hrem. cbn [snd] in Hrem. rewrite Hmp in Hrem. cbn [andb] in Hrem.
+        destruct Hafter as [(Hs' & Hout)|(co' & cl' & r'' & d' & Hs' & H1 & H2 & H3 & H4 & H5 & H6 & H7)].
+        -- left. split; [exact Hs'|]. rewrite Hout. exact Hrem.
+        -- right. exists co', cl', r'', d'. split; [exact Hs'|]. repeat split; try lia; try assumption; try (cbn [sum_len snd length]; lia).
+           ++ rewrite <- app_assoc. rewrite H6. exact Hrem.
+    + replace (Z.min d k) with k by lia.
+      rewrite cpm_busy by (try discriminate; lia). cbn [negb].
+      rewrite gnro_busy by lia.
+      simp_it.
+      replace (co + cl - (d - k)) with (o + k) by (unfold o; lia).
+      destruct (o + k <? o + k) eqn:E3; [lia|]. simp_it.
+      rewrite drop_slice by lia. replace (k - k) with 0 by lia. rewrite slice_zero.
+      cbn [zlen lenN Z.of_N]. replace (o + k - (o + k)) with 0 by lia. cbn [Z.leb Z.compare].
+      eexists _, _. split; [reflexivity|]. right. exists co, cl, ((no, nl) :: r'), (d - k).
+      split; [f_equal; unfold o; lia|]. repeat split; try lia; try assumption; try (cbn [sum_len snd length]; lia).
+      * unfold remaining, hdr_if. cbn [fst snd]. rewrite Hmp. cbn [andb].
+        destruct (d - k =? cl) eqn:E4; [lia|]. cbn [app].
+        rewrite take_slice by lia. rewrite <- !app_assoc. f_equal. rewrite app_assoc. f_equal.
+        fold o. replace (co + cl - (d - k)) with (o + k) by (unfold o; lia).
+        rewrite <- slice_split by lia. f_equal. lia.
+Qed.
+
+(* ================= one store buffer at the wanted offset: sendBody + socketState ================= *)
+Definition single_ok (e : renv) (r : list rspec2) : Prop := e_multipart e = false -> r = [].
+
+Lemma step_ready e obj : e_clen e = zlen obj ->
+  forall r co cl d k,
+    single_ok e r ->
+    0 <= co -> 0 < cl -> co + cl <= zlen obj -> chain (zlen obj) (co + cl) r ->
+    0 < d <= cl -> 1 <= k -> co + cl - d + k <= zlen obj ->
+    exists s2 out s3 fin,
+      send_buffer e (mkIt ((co, cl) :: r) d (co + cl - d) false) (co + cl - d) (rr_slice obj (co + cl - d) k) = (s2, out) /\
+      socket_state e s2 = (s3, fin) /\ it_bad s3 = false /\
+      (if fin then out = remaining e obj (co, cl) r d
+       else exists co' cl' r' d',
+           s3 = mkIt ((co', cl') :: r') d' (co' + cl' - d') false /\ single_ok e r' /\
+           0 <= co' /\ 0 < cl' /\ co' + cl' <= zlen obj /\ chain (zlen obj) (co' + cl') r' /\ 0 < d' <= cl' /\
+           out ++ remaining e obj (co', cl') r' d' = remaining e obj (co, cl) r d /\
+           d' + sum_len r' < d + sum_len r).
+Proof.
+  intros Hclen r co cl d k Hsingle Hco Hcl Hend Hch Hd Hk Hfit.
+  set (o := co + cl - d) in *.
+  destruct (e_multipart e) eqn:Hmp.
+  - (* multipart: packRange *)
+    destruct (pack_range_ready e obj Hmp r co cl d k (S (length ((co, cl) :: r))) Hco Hcl Hend Hch Hd Hk Hfit)
+      as (s2 & out & Hrun & Hafter).
+    { cbn [length]. apply Nat.lt_succ_r. apply Nat.le_succ_diag_r. }
+    assert (Hsb : send_buffer e (mkIt ((co, cl) :: r) d o false) o (rr_slice obj o k) = (s2, out)).
+    { unfold send_buffer. rewrite Hmp. cbn [it_rest]. exact Hrun. }
+    exists s2, out.
+    destruct Hafter as [(Hs2 & Hout)|(co' & cl' & r' & d' & Hs2 & H1 & H2 & H3 & H4 & H5 & H6 & H7)].
+    + (* finished *)
+      assert (Hss : exists s3, socket_state e s2 = (s3, true) /\ it_bad s3 = false).
+      { rewrite Hs2. unfold socket_state. cbn [it_out].
+        destruct (e_clen e <=? it_out s2) eqn:E; [eexists; split; reflexivity|].
+        rewrite cpm_ended. eexists; split; reflexivity. }
+      destruct Hss as (s3 & Hss & Hb). exists s3, true. repeat split; assumption.
+    + assert (Hss : socket_state e s2 = (s2, false)).
+      { rewrite Hs2. unfold socket_state. cbn [it_out]. rewrite Hclen.
+        destruct (zlen obj <=? co' + cl' - d') eqn:E; [lia|].
+        rewrite cpm_busy by (try discriminate; lia). reflexivity. }
+      exists s2, false. repeat split; try assumption; [rewrite Hs2; reflexivity|].
+      exists co', cl', r', d'. repeat split; try lia; try assumption. intros Hm. rewrite Hmp in Hm. discriminate.
+  - (* single part *)
+    rewrite (Hsingle Hmp) in *. clear Hsingle.
+    assert (Hz : zlen (rr_slice obj o k) = k) by (apply zlen_slice; lia).
+    assert (Hsb : send_buffer e (mkIt [(co, cl)] d o false) o (rr_slice obj o k) =
+                  (mkIt [(co, cl)] (d - Z.min d k) (o + Z.min d k) false, rr_take (Z.min d k) (rr_slice obj o k))).
+    { unfold send_buffer. rewrite Hmp. rewrite lts_busy by lia. rewrite Hz.
+      destruct (o <? co) eqn:Eo; [lia|]. rewrite note_sent_ok by lia. reflexivity. }
+    destruct (Z.le_gt_cases d k) as [Hdk|Hkd].
+    + replace (Z.min d k) with d in Hsb by lia. replace (d - d) with 0 in Hsb by lia.
+      assert (Hout : rr_take d (rr_slice obj o k) = remaining e obj (co, cl) [] d).
+      { unfold remaining, hdr_if, term_mp. rewrite Hmp. cbn [andb app parts_body fst snd]. fold o.
+        rewrite take_slice by lia. now rewrite !app_nil_r. }
+      assert (Hss : exists s3, socket_state e (mkIt [(co, cl)] 0 (o + d) false) = (s3, true) /\ it_bad s3 = false).
+      { unfold socket_state. cbn [it_out].
+        destruct (e_clen e <=? o + d) eqn:E; [eexists; split; reflexivity|].
+        rewrite cpm_last. eexists; split; reflexivity. }
+      destruct Hss as (s3 & Hss & Hb). eexists _, _, s3, true. split; [exact Hsb|]. repeat split; assumption.
+    + replace (Z.min d k) with k in Hsb by lia.
+      assert (Hss : socket_state e (mkIt [(co, cl)] (d - k) (o + k) false) = (mkIt [(co, cl)] (d - k) (o + k) false, false)).
+      { unfold socket_state. cbn [it_out]. rewrite Hclen.
+        destruct (zlen obj <=? o + k) eqn:E; [lia|].
+        rewrite cpm_busy by (try discriminate; lia). reflexivity. }
+      eexists _, _, _, false. split; [exact Hsb|]. split; [exact Hss|]. split; [reflexivity|].
+      exists co, cl, [], (d - k). split; [f_equal; unfold o; lia|].
+      repeat split; try lia; try exact I; try (cbn [sum_len]; lia).
+      unfold remaining, hdr_if, term_mp. rewrite Hmp. cbn [andb app parts_body fst snd]. fold o.
+      rewrite take_slice by lia. rewrite !app_nil_r.
+      replace (co + cl - (d - k)) with (o + k) by (unfold o; lia).
+      rewrite <- slice_split by lia. f_equal. lia.
+Qed.
+
+(* ================= the pull loop ================= *)
+Fixpoint n_chunks (l : list N) : Z := match l with [] => 0 | _ :: r => 1 + n_chunks r end.
+
+Lemma clip_chunk_bounds k avail : 1 <= avail -> 1 <= clip_chunk k avail <= avail.
+Proof. intros H. unfold clip_chunk. lia. Qed.
+
+Lemma pull_loop_exact e obj : e_clen e = zlen obj ->
+  forall chunks r co cl d acc,
+    single_ok e r ->
+    0 <= co -> 0 < cl -> co + cl <= zlen obj -> chain (zlen obj) (co + cl) r -> 0 < d <= cl ->
+    d + sum_len r <= n_chunks chunks ->
+    pull_loop e obj chunks (mkIt ((co, cl) :: r) d (co + cl - d) false) acc
+    = RDone (acc ++ remaining e obj (co, cl) r d) false.
+Proof.
+  intros Hclen. induction chunks as [|k ks IH]; intros r co cl d acc Hsingle Hco Hcl Hend Hch Hd Hn.
+  - cbn [n_chunks] in Hn. pose proof (chain_sum_nonneg _ _ _ Hch). lia.
+  - cbn [n_chunks] in Hn. cbn [pull_loop]. rewrite gnro_busy by lia. rewrite Hclen.
+    destruct (zlen obj <=? co + cl - d) eqn:E; [lia|].
+    pose proof (clip_chunk_bounds k (zlen obj - (co + cl - d)) ltac:(lia)) as Hk.
+    destruct (step_ready e obj Hclen r co cl d (clip_chunk k (zlen obj - (co + cl - d))) Hsingle Hco Hcl Hend Hch Hd
+                ltac:(lia) ltac:(lia)) as (s2 & out & s3 & fin & Hsb & Hss & Hbad & Hres).
+    rewrite Hsb, Hss. destruct fin.
+    + rewrite Hbad, Hres. reflexivity.
+    + destruct Hres as (co' & cl' & r' & d' & Hs3 & Hsing' & H1 & H2 & H3 & H4 & H5 & H6 & H7).
+      rewrite Hs3. rewrite IH by (try assumption; lia). rewrite <- app_assoc, H6. reflexivity.
+Qed.
+
+(* ================= the buffer that arrives with the headers ================= *)
+Lemma first_dropped e r co cl data : 0 < co -> 0 < cl -> zlen data <> 0 ->
+  send_buffer e (mkIt ((co, cl) :: r) cl co false) 0 data = (mkIt ((co, cl) :: r) cl co false, []).
+Proof.
+  intros Hco Hcl Hz. unfold send_buffer. destruct (e_multipart e) eqn:Hmp.
+  - cbn [it_rest length pack_range at_end orb]. destruct (zlen data =? 0) eqn:E; [lia|].
+    rewrite lts_busy by lia. destruct (0 <? co) eqn:E1; [|lia]. cbn [Z.ltb Z.compare].
+    rewrite cpm_busy by (try discriminate; lia). cbn [negb]. rewrite gnro_busy by lia.
+    simp_it. replace (co + cl - cl) with co by lia. destruct (co <? co) eqn:E2; [lia|]. simp_it.
+    replace (co - co) with 0 by lia. destruct (zlen data <=? 0) eqn:E3; [pose proof (zlen_nonneg data); lia|].
+    cbn [Z.eqb]. reflexivity.
+  - rewrite lts_busy by lia. destruct (0 <? co) eqn:E1; [|lia]. rewrite note_sent_ok by lia.
+    rewrite take_zero. f_equal. f_equal; lia.
+Qed.
+
+Definition first_ok (obj : bytes) (co : Z) (data0 : bytes) : Prop :=
+  zlen data0 = 0 \/ 0 < co \/ (exists k, 1 <= k <= zlen obj /\ data0 = rr_slice obj 0 k).
+
+Definition mp_consistent (e : renv) (cs : list rspec2) : Prop := e_multipart e = false -> exists c, cs = [c].
+
+(* ================= Content-Length of the 206 ================= *)
+Lemma parts_len e obj : forall cs lo a, 0 <= lo -> chain (zlen obj) lo cs ->
+  mrange_clen_loop e cs a = a + zlen (parts_body (mkEnv true (e_clen e) (e_ctype e) (e_boundary e)) obj cs).
+Proof.
+  induction cs as [|[co cl] r IH]; intros lo a Hlo Hch; cbn [mrange_clen_loop parts_body]; [cbn [zlen lenN Z.of_N]; lia|].
+  cbn [chain fst snd] in Hch. destruct Hch as (H1 & H2 & H3 & H4).
+  rewrite (IH (co + cl)) by (try assumption; lia). rewrite !zlen_app. cbn [fst snd].
+  rewrite zlen_slice by lia. unfold hdr_mp. cbn [e_multipart]. unfold pack_range_hdr. cbn [e_boundary e_ctype e_clen]. lia.
+Qed.
+
+Lemma env_eta e : e_multipart e = true -> mkEnv true (e_clen e) (e_ctype e) (e_boundary e) = e.
+Proof. destruct e as [m c t b]. cbn. intros ->. reflexivity. Qed.
+
+Lemma declared_length e obj co cl r : e_multipart e = (match r with [] => false | _ => true end) ->
+  0 <= co -> chain (zlen obj) 0 ((co, cl) :: r) ->
+  snd (prep_partial e ((co, cl) :: r)) = zlen (expected_body e obj ((co, cl) :: r)).
+Proof.
+  intros Hmp Hco Hch. unfold prep_partial. cbn [snd fst].
+  destruct (e_multipart e) eqn:Em.
+  - unfold mrange_clen. rewrite (parts_len e obj _ 0 0) by (try assumption; lia). rewrite (env_eta e Em).
+    unfold expected_body, term_mp. rewrite Em. rewrite zlen_app. lia.
+  - destruct r; [|discriminate]. unfold expected_body, term_mp, hdr_mp. cbn [parts_body]. unfold hdr_mp. rewrite Em.
+    cbn [app fst snd]. rewrite !app_nil_r. cbn [chain fst snd] in Hch. rewrite zlen_slice by lia. reflexivity.
+Qed.
+
+Lemma prep_partial_cons e co cl r :
+  prep_partial e ((co, cl) :: r) = (mkIt ((co, cl) :: r) cl co false, if e_multipart e then mrange_clen e ((co, cl) :: r) else cl).
+Proof. reflexivity. Qed.
+
+(* ================= pack_range_exact ================= *)
+Theorem run_partial_exact e obj co cl r data0 chunks :
+  e_clen e = zlen obj -> single_ok e r -> chain (zlen obj) 0 ((co, cl) :: r) -> first_ok obj co data0 ->
+  cl + sum_len r <= n_chunks chunks ->
+  snd (run_partial e obj ((co, cl) :: r) data0 chunks) = RDone (expected_body e obj ((co, cl) :: r)) false.
+Proof.
+  intros Hclen Hsingle Hch Hfirst Hn.
+  cbn [chain fst snd] in Hch. destruct Hch as (Hco & Hcl & Hend & Hch).
+  unfold run_partial. rewrite prep_partial_cons.
+  assert (Hss : socket_state e (mkIt ((co, cl) :: r) cl co false) = (mkIt ((co, cl) :: r) cl co false, false)).
+  { unfold socket_state. cbn [it_out]. rewrite Hclen. destruct (zlen obj <=? co) eqn:E; [lia|].
+    rewrite cpm_busy by (try discriminate; lia). reflexivity. }
+  assert (Hpull : pull_loop e obj chunks (mkIt ((co, cl) :: r) cl co false) [] = RDone (expected_body e obj ((co, cl) :: r)) false).
+  { replace co with (co + cl - cl) at 2 by lia. rewrite (pull_loop_exact e obj Hclen) by (try assumption; lia).
+    cbn [app]. f_equal. apply (remaining_start e obj (co, cl) r). }
+  destruct (zlen data0 =? 0) eqn:Ez.
+  - rewrite Hss. cbn [snd]. exact Hpull.
+  - destruct (Z.lt_ge_cases 0 co) as [Hpos|Hzero].
+    + rewrite first_dropped by lia. rewrite Hss. cbn [snd]. exact Hpull.
+    + assert (co = 0) by lia. subst co.
+      destruct Hfirst as [Hf|[Hf|(k & Hk & Hdata)]]; [lia|lia|]. subst data0.
+      destruct (step_ready e obj Hclen r 0 cl cl k Hsingle ltac:(lia) Hcl Hend Hch ltac:(lia) ltac:(lia) ltac:(lia))
+        as (s2 & out & s3 & fin & Hsb & Hss' & Hbad & Hres).
+      replace (0 + cl - cl) with 0 in Hsb by lia. rewrite Hsb, Hss'. cbn [snd]. destruct fin.
+      * rewrite Hbad, Hres. f_equal. apply (remaining_start e obj (0, cl) r).
+      * destruct Hres as (co' & cl' & r' & d' & Hs3 & Hsing' & H1 & H2 & H3 & H4 & H5 & H6 & H7).
+        rewrite Hs3. rewrite (pull_loop_exact e obj Hclen) by (try assumption; lia).
+        rewrite H6. f_equal. apply (remaining_start e obj (0, cl) r).
+Qed.
